@@ -338,6 +338,73 @@ def _doc_job(job):
     return acc
 
 
+LONG_SKIP = ('graph:', 'tree-text', 'iter:nested', 'export:options-reused-from-smaller-document', 'valid')
+
+
+def _long_job(job):
+    """a document far beyond the bounds (about 1 450 stages, 275 measures, four spines incl. lyrics): the same operations applied to three imports of the same
+    text in three different orders (forward, backward, interleaved by thirds) and, on one of them, twice - every operation must answer the same on all three.
+    Then measure excerpts in descending and in ascending order of their start on two further imports."""
+    from .. import docspace as D
+    seed, = job
+    acc = Acc()
+    text = D.giant_model(seed, rows=1100).text()
+    case0 = {'doc': f'giant-1100#{seed}', 'text': '(giant document of 1 100 data rows)', 'long': [seed]}
+    docs = [kp.loads(text)[0] for _ in range(3)]
+    try:
+        M = docs[0].measures_count()
+    except Exception:
+        M = 0
+    ops = [o for o in make_ops(4, M) if not o[0].startswith(LONG_SKIP)]
+    mod0 = SN.digest(SN.module_roots())
+    orders = [list(ops), list(reversed(ops)), ops[2::3] + ops[1::3] + ops[0::3]]
+    results = []
+    for d, order in zip(docs, orders):
+        res = {}
+        for op in order:
+            r, ch = call(op, d)
+            acc.count('transitions')
+            acc.count('evaluations')
+            res[op[0]] = r
+            if ch:
+                acc.violation(Viol('option-object', 'modified-by-the-call', dict(case0, op=op[0]), 'unchanged', 'changed'))
+        results.append(res)
+    for op in ops:
+        a, b, c = (r[op[0]] for r in results)
+        acc.nontriv(('long', op[0]))
+        if not (a == b == c):
+            acc.violation(Viol('history', 'result-depends-on-the-order-of-earlier-calls', dict(case0, op=op[0], orders='forward / backward / interleaved'), a[1][:200], (b[1][:100], c[1][:100])))
+    again = {}
+    for op in ops:
+        again[op[0]], _ = call(op, docs[0])
+        acc.count('transitions')
+        if again[op[0]] != results[0][op[0]]:
+            acc.violation(Viol('repeat', 'second-call-returns-something-else', dict(case0, op=op[0]), results[0][op[0]][1][:200], again[op[0]][1][:200]))
+    acc.count('traces', 3)
+    if SN.digest(SN.module_roots()) != mod0:
+        acc.violation(Viol('shared-defaults', 'module-level-state-modified', dict(case0, op='(some operation on the long document)'), None, None))
+    # excerpts: starts descending on one import, ascending on another; each (a, b) must give the same on both (returning or raising)
+    starts = [s for s in (M - 5, M - 45, 240, 200, 160, 120, 100, 64, 33, 2) if 1 <= s <= M]
+    d_desc, d_asc = kp.loads(text)[0], kp.loads(text)[0]
+
+    def rng(d, a):
+        try:
+            return ('ok', kp.dumps(d, from_measure=a, to_measure=min(M, a + 3), spine_types=['**kern', '**text']))
+        except Exception as e:  # noqa
+            return ('exc', type(e).__name__)
+    desc = {a: rng(d_desc, a) for a in starts}
+    asc = {a: rng(d_asc, a) for a in sorted(starts)}
+    acc.count('transitions', 2 * len(starts))
+    for a in starts:
+        if desc[a] != asc[a]:
+            acc.violation(Viol('history', 'result-depends-on-the-order-of-earlier-calls', dict(case0, op=f'dumps:range-{a}-{min(M, a + 3)}', orders='starts descending / ascending'), asc[a][1][:200], desc[a][1][:200]))
+    return acc
+
+
+def _dispatch(job):
+    return _long_job(job[1:]) if job[0] == 'long' else _doc_job(job)
+
+
 def run(ctx):
     docs = doc_texts(ctx.tier, ctx.seed)
     ctx.rule = ('documents x (every op, every op twice, all ordered op pairs chained on ONE live object) with reflection snapshots of document, module-level state and option objects; '
@@ -346,11 +413,14 @@ def run(ctx):
                                                         'in addition one chained history of length 2*ops^2 per document'}
     ctx.assumptions = ['snapshot walks __dict__/slots/containers from the document and from every kernpy module (no field names hard-coded); Node.NextID excluded (consumed by imports only)',
                        'graph output compared modulo node identifiers']
-    ctx.pmap(_doc_job, [(n, t, ns, ctx.tier) for n, t, ns in docs], chunksize=1)
+    longs = [('long', ctx.seed)] if ctx.quick else [('long', ctx.seed), ('long', ctx.seed + 1)]
+    ctx.pmap(_dispatch, longs + [(n, t, ns, ctx.tier) for n, t, ns in docs], chunksize=1)
     ctx.extra['closure'] = {'docs_closed_at_depth_1': ctx.n.get('docs_closed_at_depth_1', 0), 'docs_with_state_change': ctx.n.get('docs_with_state_change', 0)}
 
 
 def replay(case):
+    if 'long' in case:
+        return _long_job(tuple(case['long'])).viol
     for tier in ('quick', 'thorough'):
         for n, t, ns in doc_texts(tier, 0):
             if t == case['text']:
